@@ -51,6 +51,10 @@ class Track:
 
         self.scfg = scfg
         self.blocks = dict(scfg.graph)
+        # content snapshot of mutable payloads (a list mutated in place keeps
+        # its identity)
+        self.payload = {k: {f: list(v) for f, v in vars(b).items() if isinstance(v, list)}
+                        for k, b in scfg.graph.items()}
         self.orig = plain_graph(scfg)
         self.flat = all(is_orig(b) for b in scfg.graph.values())
         self.has_regions = any(isinstance(b, RegionBlock) for b in scfg.graph.values())
@@ -155,7 +159,8 @@ def stage_oracles(ctx, tr, stage):
         from .oracles.conserve import check_conserved
 
         st["C05"] = run_oracle(
-            ctx, "C05.conserve", check_conserved, tr.orig, tr.blocks, scfg, tr.joined
+            ctx, "C05.conserve", check_conserved, tr.orig, tr.blocks, scfg, tr.joined,
+            tr.payload
         )
     if "C06" in act:
         from .oracles import ctrlvars
